@@ -2,15 +2,15 @@
 
   proof      KB.Props.C19 over KB.Locks: the generic `lock_discipline_race_free` (abstract trace model, all traces)
              and the instance over KB/Generated/LockTable.lean (every syntactic access to the tracked shared fields,
-             regenerated from /repo by harness/cmd/kbextract/locks.go): `lock_table_disciplined_partial`,
-             `lock_table_offenders` (exactly which locations violate the discipline), `lock_table_resolved`.
+             regenerated from /repo by harness/cmd/kbextract/locks.go): `lock_table_disciplined` (EVERY tracked
+             location), `lock_table_no_offenders`, `lock_table_resolved`, `tracked_locations_race_free`.
   search     `go test -race -tags verif ./racetest/...` (harness/racetest): concurrent create/update/delete/get/
              list/count on shared keys + watchers + concurrent Compact calls + async-retry activity on a backend
              over memkv; leader election with concurrent IsLeader()/GetLeaderInfo(); one etcd watch stream with
              range-stream and watch requests. Every "WARNING: DATA RACE" block is a concrete failing input; its
              two stacks are attributed to locations of the lock table by (file, line).
-  verdicts   race on a location listed in known_findings.json (signature race:<location>) → KNOWN-FINDING;
-             any other race → VIOLATION (replay = the report + the command); a race on a location the table
+  verdicts   the workloads must be SILENT. A race on a location listed in known_findings.json with status=known
+             (signature race:<location>; none at present) → KNOWN-FINDING; any other race → VIOLATION (replay = the report + the command); a race on a location the table
              calls disciplined additionally means the static side is unsound → VIOLATION as well.
 """
 import os
@@ -20,7 +20,7 @@ import time
 from .. import core
 
 LEVEL_NOTE = ("partial: proved = the lock discipline implies race freedom in an abstract trace model (mutex / RW-mutex / "
-              "sync/atomic edges only) and the extracted table satisfies the discipline except for the listed offenders; "
+              "sync/atomic edges only) and the extracted table satisfies the discipline for every tracked location; "
               "trusted = the extractor's lexical lock analysis and its Conforms reading, the memkv batch protocol's "
               "client obligations, confinement / pre-publication claims; not modelled = channel, WaitGroup, Once, "
               "goroutine-start edges; out of scope = fields that are not tracked, badger / tikv, internals of "
@@ -155,6 +155,14 @@ def check(rep, tier, seed):
         key = ",".join(locs) if locs else "unattributed:" + "|".join(sorted(tops))
         by_loc.setdefault(key, []).append((r, tops))
     rc_cov["raced_locations"] = {k: len(v) for k, v in by_loc.items()}
+    # evidence bookkeeping: every workload run is one evaluated case (its size is what the test logged), and so is
+    # every race report
+    for t_name in sorted(set(tests)):
+        c = core.Case("racetest", ["# " + cmd, "workload %s seed=%d ms=%s" % (t_name, seed, "2500" if tier == "quick" else "20000")] +
+                      ["log " + l for l in logs])
+        c.impl = ["%s: %s" % (t_name, "race reported" if re.search(r"--- FAIL: %s\b" % re.escape(t_name), out) else "no race report")]
+        c.model = []
+        rep.count_case(c)
     # evidence bookkeeping: every report is one evaluated case
     for key, lst in by_loc.items():
         c = core.Case("racetest", ["# " + cmd] + ["race %s: %s <-> %s" % (key, t[0], t[1]) for _, t in lst[:5]])
@@ -162,8 +170,8 @@ def check(rep, tier, seed):
         c.model = []
         rep.count_case(c)
     rep.cov["evaluations"] += max(0, len(reports) - len(by_loc))
-    rep.cov["rule"] = ("one evaluation per race report of the -race workload run; distinct = distinct attributed location; "
-                       "workload sizes under race_search.workload")
+    rep.cov["rule"] = ("one evaluation per race-detector workload (test function of harness/racetest, sizes under "
+                       "race_search.workload) plus one per race report; distinct = distinct workload / distinct attributed location")
 
     found = False
     for key, lst in sorted(by_loc.items()):
